@@ -621,6 +621,16 @@ func (h *Harness) classify(p *refcodec.Packet) string {
 	return ""
 }
 
+// localPublish builds a message for Server.Publish.
+func localPublish(topic string, q byte, retain bool, payload string) *message.PublishMessage {
+	msg := message.NewPublishMessage()
+	msg.SetTopic([]byte(topic))
+	msg.SetPayload([]byte(payload))
+	msg.SetQoS(q)
+	msg.SetRetain(retain)
+	return msg
+}
+
 // Idle checks that nothing arrives without an action.
 func (h *Harness) Idle() []Mismatch {
 	h.W.Settle()
